@@ -186,3 +186,67 @@ def touches(actors, objof):
             if sets[i] & sets[j]:
                 return True
     return False
+
+
+def run_classes(progs, tag, maxexec=3000, deadline=None):
+    """vx classes on every program: {id: dict(nexec, nclasses, complete, hb_pairs, hb_bad, race_sets, race_bad, asym, maxlen, notes[], classes{hash}, status)}"""
+    binary = vx_binary()
+    d = common.tmpdir("vxc-" + tag)
+    n = min(common.NCPU, max(1, len(progs)))
+    jobs = []
+    for i in range(n):
+        part = progs[i::n]
+        if not part:
+            continue
+        pf, of = os.path.join(d, "p%d.txt" % i), os.path.join(d, "o%d.txt" % i)
+        with open(pf, "w") as f:
+            for pid, prog in part:
+                f.write(prog_text(pid, prog))
+        env = dict(os.environ)
+        if deadline:
+            env["VX_DEADLINE"] = str(int(deadline))
+        jobs.append(([binary, "classes", pf, of, "x", str(maxexec)], env, of))
+    import concurrent.futures as cf
+    def one(j):
+        return subprocess.run(j[0], env=j[1], stdout=subprocess.PIPE, stderr=subprocess.PIPE).returncode
+    with cf.ThreadPoolExecutor(max_workers=len(jobs)) as ex:
+        list(ex.map(one, jobs))
+    out = {}
+    for j in jobs:
+        cur = None
+        for line in open(j[2], errors="replace"):
+            if line.startswith("P "):
+                cur = dict(id=line[2:].strip(), notes=[], classes=set(), status="CRASH", nexec=0, nclasses=0, complete=False, errors=[])
+                out[cur["id"]] = cur
+            elif cur is None:
+                continue
+            elif line.startswith("C "):
+                v = list(map(int, line.split()[1:]))
+                cur.update(nexec=v[0], nclasses=v[1], complete=bool(v[2]), hb_pairs=v[3], hb_bad=v[4], race_sets=v[5], race_bad=v[6], asym=v[7], maxlen=v[8])
+            elif line.startswith("N "):
+                cur["notes"].append(line[2:].strip())
+            elif line.startswith("K "):
+                cur["classes"].add(line[2:].strip())
+            elif line.startswith("X "):
+                cur["errors"].append(line.strip())
+            elif line.startswith("R "):
+                cur["status"] = line.split()[4]
+    shutil.rmtree(d, ignore_errors=True)
+    return out
+
+
+def run_fnf(prog, schedules, tag):
+    """Foata normal form hash of each schedule on the real transitions: list of (status, hash, terminal, length)"""
+    binary = vx_binary()
+    d = common.tmpdir("vxf-" + tag)
+    pf, sf = os.path.join(d, "p.txt"), os.path.join(d, "s.txt")
+    open(pf, "w").write(prog_text("x", prog))
+    open(sf, "w").write("".join(s + "\n" for s in schedules))
+    r = subprocess.run([binary, "fnf", pf, "0", sf], stdout=subprocess.PIPE, stderr=subprocess.PIPE, text=True, timeout=600)
+    shutil.rmtree(d, ignore_errors=True)
+    res = []
+    for line in r.stdout.splitlines():
+        p = line.split()
+        if len(p) == 4:
+            res.append((p[0], p[1], p[2] == "1", int(p[3])))
+    return res
